@@ -24,7 +24,13 @@ def rule_dict(r, idx):
     det = {uncps(n): {f"F{i + 1}": "v"} for i, n in enumerate(r["names"])}
     conds = [uncps(c) for c in r["conds"]]
     det["condition"] = conds[0] if len(conds) == 1 else conds
-    d = {"title": f"T{r['title']}", "description": f"R{idx}", "logsource": {"category": "c"}, "detection": det}
+    # (log source and a numeric EventID vary with the rule's directory / file number: material for the validators that
+    #  look at log sources and event identifiers - none of the five modelled ones does)
+    first = next(iter(det))
+    det[first] = dict(det[first], EventID=int(r["fname"]))
+    det["condition"] = conds[0] if len(conds) == 1 else conds
+    ls = {"product": "windows", "service": "sysmon"} if r["dir"] == 1 else {"product": "windows", "service": "application"}
+    d = {"title": f"T{r['title']}", "description": f"R{idx}", "logsource": ls, "detection": det}
     if r["uid"]:
         d["id"] = uuid_of(r["uid"])
     return d
@@ -51,12 +57,17 @@ def run_once(case, perm, vorder):
         excl.setdefault(UUID(uuid_of(uid)) if uid else None, set()).add(VALIDATORS[v])  # uid 0: the rules without id
     snapshot = lambda: [json.dumps(r.to_dict(), sort_keys=True, default=str) for r in rules]
     before = snapshot()
-    out = {"perm": list(perm), "ok": False, "issues": [], "unchanged": False}
+    out = {"perm": list(perm), "ok": False, "issues": [], "unchanged": False, "allsig": []}
     try:
         sv = SigmaValidator([VALIDATORS[n] for n in names], excl)
         issues = sv.validate_rules(iter(rules))
-        # every built-in validator over the same objects (issues not compared): they must not change the rules either
-        SigmaValidator(list(VALIDATORS.values())).validate_rules(iter(rules))
+        # every built-in validator over the same objects: they must not change the rules either, and what they report
+        # must not depend on the order (their issues are compared between the runs, not with an expected set)
+        allv = SigmaValidator(list(reversed(list(VALIDATORS.values()))) if vorder else list(VALIDATORS.values())).validate_rules(iter(rules))
+        out["allsig"] = sorted(
+            cps(type(i).__name__ + ":" + ",".join(sorted(r.description for r in i.rules)) + ":"
+                + ";".join(sorted(f"{k}={v}" for k, v in vars(i).items() if k != "rules")))
+            for i in allv)
         recs = []
         for i in issues:
             t, attr = ISSUE_T.get(type(i).__name__, (type(i).__name__, None))
